@@ -146,7 +146,10 @@ package caskettls
 //@ // helpers that other units call through an empty contract ("frame-empty, promises nothing"): here each is verified
 //@ // against exactly that contract (safety and an empty frame), so that assumption is a proved fact
 //@ use @verif/specs/stdlib.spec:stdlib
+//@ // both default cipher lists are non-empty slice literals of the package (assumed state fact of its initialiser)
+//@ invariant len(defaultCiphers) >= 1 && len(defaultCiphersNonAESNI) >= 1
 //@ func getPreferredDefaultCiphers
+//@   ensures [a_default_cipher_list_is_never_empty] len(result) >= 1
 
 //@ unit name_helpers frames=on props=C06 verify_pure=on filter=`caskettls\.normalizedName$`
 //@ use @verif/specs/stdlib.spec:stdlib
